@@ -100,10 +100,12 @@ class Waiting(process_states.Waiting):
         try:
             self.process.ctx[key] = awaitable.result()  # type: ignore
         except Exception as exception:
-            self._waiting_future.set_exception(exception)
+            future = self._pending_future()
+            if future is not None:
+                future.set_exception(exception)
         else:
             if not self._awaiting:
-                self._waiting_future.set_result(lang.NULL)
+                self.resume()
 
 
 class WorkChain(mixins.ContextMixin, processes.Process):
